@@ -23,7 +23,7 @@ def dedup_keys(keys):
     out, seen = [], set()
     for k in keys:
         e = k[1]
-        sig = ("col", e[-1]) if e[0] in ("col", "c") else ("expr", repr(e))
+        sig = repr(e)
         if sig in seen:
             continue
         seen.add(sig)
